@@ -74,8 +74,8 @@ func (m *observer) OnBegin(s *apphist.Sim, a *apphist.BeginArgs, pre, post strin
 	m.lines = append(m.lines, line{in: "reset", want: "reset", tx: -1})
 }
 func (m *observer) OnEnd(s *apphist.Sim, pre, post string, ups []appdrv.ValUp) {}
-func (m *observer) OnCommit(s *apphist.Sim, post string, hash []byte)        {}
-func (m *observer) OnRestart(s *apphist.Sim, infoOK bool)                    {}
+func (m *observer) OnCommit(s *apphist.Sim, post string, hash []byte)          {}
+func (m *observer) OnRestart(s *apphist.Sim, infoOK bool)                      {}
 func (m *observer) OnQuery(s *apphist.Sim, path string, data []byte, h int64, canon string) {
 }
 
@@ -762,4 +762,3 @@ func Run(seed uint64, tier, work, driver string, replay []string) *vcommon.Resul
 	res.DistinctNontrivial = len(shapes)
 	return res
 }
-
